@@ -105,6 +105,13 @@ def eval_construct(case):
     if not np.all(np.diff(ms) > 0):
         viol.append(V("m-scaled/strictly-increasing", "scaled pseudopressure is not strictly increasing in pressure",
                       case=case))
+    p_asc = np.sort(p)
+    dense = np.unique(np.concatenate([p_asc, p_asc[:-1] + 0.3 * np.diff(p_asc), p_asc[:-1] + 0.7 * np.diff(p_asc)]))
+    md = np.asarray(fl.m_scaled_func(dense), dtype=float)
+    if not np.all(np.diff(md) > 0):
+        k = int(np.argmin(np.diff(md)))
+        viol.append(V("m-scaled/function-strictly-increasing", f"m_scaled_func is not strictly increasing between "
+                      f"p={dense[k]:.6g} and {dense[k + 1]:.6g} (nodes and two interior points of every cell)", case=case))
     got = float(fl.m_scaled_func(p_i))
     if not abs(got - m_i) <= 1e-14 * abs(m_i):
         viol.append(V("m_i/consistent", f"m_scaled_func(p_i)={got!r} but reported m_i={m_i!r}", case=case))
